@@ -941,6 +941,12 @@ def oracle_vrs(case, R):
             extra = [freq[i % (n - 1)] + fr * (freq[i % (n - 1) + 1] - freq[i % (n - 1)]) for i, fr in off]
             Fn = np.unique(np.r_[Fn, extra])
             offgrid = not np.all(np.isin(Fn, freq))
+        # response frequencies in the caller's own order (descending, shuffled): every output follows that order
+        fo = case.get("fn_order", "asc")
+        if fo == "desc":
+            Fn = Fn[::-1].copy()
+        elif fo == "shuffled" and len(Fn) > 1:
+            Fn = Fn[np.random.default_rng(int(case["seed"]) + 17).permutation(len(Fn))]
         Fn_arg = Fn.copy()
         if offgrid:
             freq = np.unique(np.r_[freq, Fn])
@@ -1053,6 +1059,7 @@ def vrs_cases(draw, edge=False):
             "gr": draw(st.sampled_from([1.05, 1.1, 2.0 ** 0.25])), "Q": draw(st.sampled_from([0.6, 1.0, 10.0, 25.0, 50.0, 7.3])),
             "linear": False if edge else draw(st.booleans()), "fn_idx": fn_idx, "getmiles": draw(st.booleans()),
             "getresp": draw(st.booleans()), "badQ": (not edge) and draw(st.sampled_from([False] * 24 + [True])),
+            "fn_order": draw(st.sampled_from(["asc", "asc", "desc", "shuffled"])),
             "fn_off": draw(st.one_of(st.just([]), st.just([]), st.lists(
                 st.tuples(st.integers(0, 58), st.sampled_from([0.5, 0.25, 0.9, 0.001])), min_size=1, max_size=3)))}
 
